@@ -2,6 +2,7 @@ package main
 
 import (
 	"fmt"
+	"math"
 	"os"
 	"sort"
 	"strconv"
@@ -443,13 +444,65 @@ func (a *forcedArea) Run(line string) string {
 	return "bad-op"
 }
 
+// genLong: one worker, 17..70 tasks submitted in bursts and released strictly in order, with partial drains between
+// the bursts, so that the backlog grows past 16, 32 and 64 entries after tasks have been taken off its head (growth
+// policies, ring buffers, shifting). With one worker and in-order releases the model's exploration stays small and the
+// quiescent observable is schedule-independent (unbounded depth: every Submit is accepted).
+func genLong(r *hx.Rng, out func(string)) {
+	depth := hx.Pick(r, []int{-1, -1, -1, -1, 100, 64, 17, math.MinInt64})
+	inCap := hx.Pick(r, []int{2, 4})
+	mode := hx.Pick(r, []int{0, 0, 1})
+	total := hx.Pick(r, []int{17, 20, 33, 40, 65, 70})
+	out("reset")
+	out(fmt.Sprintf("new 1 %d %d %d", depth, inCap, mode))
+	next, rel := 0, 0
+	for next < total {
+		k := r.Range(3, 12)
+		if k > total-next {
+			k = total - next
+		}
+		var sb strings.Builder
+		for j := 0; j < k; j++ {
+			if r.Chance(1, 9) {
+				sb.WriteByte(valueKinds[r.Intn(len(valueKinds))])
+			} else {
+				sb.WriteByte('n')
+			}
+		}
+		out("sub " + sb.String())
+		next += k
+		m := r.Range(1, (next-rel)/3+1) // drain a part: the head of the backlog advances, the rest stays queued
+		var ids []string
+		for j := 0; j < m && rel < next; j++ {
+			ids = append(ids, strconv.Itoa(rel))
+			rel++
+		}
+		out("rel " + strings.Join(ids, " "))
+	}
+	for rel < next {
+		m := r.Range(1, 9)
+		var ids []string
+		for j := 0; j < m && rel < next; j++ {
+			ids = append(ids, strconv.Itoa(rel))
+			rel++
+		}
+		out("rel " + strings.Join(ids, " "))
+	}
+	out("shut")
+	out("end")
+}
+
 // Gen emits histories `reset / new W D C / … / obs`; n counts script lines.
 func (a *forcedArea) Gen(r *hx.Rng, n int, tier string, emit func(string)) {
 	lines := 0
 	out := func(s string) { emit(s); lines++ }
 	for lines < n {
-		workers := hx.Pick(r, []int{1, 1, 2, 2, 3, 5})
-		depth := hx.Pick(r, []int{-1, 0, 0, 1, 1, 2, 3, 100})
+		if r.Chance(1, 10) {
+			genLong(r, out)
+			continue
+		}
+		workers := hx.Pick(r, []int{1, 1, 2, 2, 3, 5, 8})
+		depth := hx.Pick(r, []int{-1, 0, 0, 1, 1, 2, 3, 10, 100, workers, workers, workers + 1, math.MinInt64, 65536})
 		inCap := hx.Pick(r, []int{1, 1, 2, 3})
 		out("reset")
 		mode := hx.Pick(r, []int{0, 0, 0, 1, 1, 2, 3})
